@@ -16,6 +16,7 @@ package main
 import (
 	"errors"
 	"fmt"
+	"io"
 	"math/rand"
 	"net"
 	"sort"
@@ -26,7 +27,9 @@ import (
 	"golang.org/x/net/context"
 )
 
-// c17Shape: an error value to build. kind 0 nil, 1 plain (inner = what it wraps, nil: nothing),
+// c17Shape: an error value to build. kind 0 nil, 1 plain (inner = what it wraps, nil: nothing;
+// then code = flavour: 0 errors.New, 1 the bare context.Canceled, 2 io.EOF, 3 tchannel.ErrNoPeers --
+// sentinel VALUES that are neither a SystemError nor a net.Error: class "unexpected"),
 // 2 net.Error (code = flavour), 3 SystemError(code) wrapping inner.
 type c17Shape struct {
 	kind  int
@@ -44,6 +47,14 @@ func (s *c17Shape) err() error {
 	case 1:
 		if in := s.inner.err(); in != nil {
 			return fmt.Errorf("c17 plain wrapping: %w", in)
+		}
+		switch s.code % 4 {
+		case 1:
+			return context.Canceled
+		case 2:
+			return io.EOF
+		case 3:
+			return tchannel.ErrNoPeers
 		}
 		return errors.New("c17 plain")
 	case 2:
@@ -130,7 +141,7 @@ func c17RandShape(rng *rand.Rand, depth int, codes []int) *c17Shape {
 	case depth <= 0 || k < 3:
 		switch rng.Intn(4) {
 		case 0:
-			return &c17Shape{kind: 1}
+			return &c17Shape{kind: 1, code: rng.Intn(4)}
 		case 1, 2:
 			return &c17Shape{kind: 2, code: rng.Intn(4)}
 		default:
@@ -172,10 +183,20 @@ func engineRetryOpts(rng *rand.Rand, n int, tier string, o *Out) {
 	wrappedKinds := []*c17Shape{
 		{kind: 2, code: 0}, {kind: 2, code: 1}, {kind: 1}, nil, // net timeout, net non-timeout, plain, nil
 		{kind: 2, code: 2}, {kind: 2, code: 3}, // *net.OpError, context.DeadlineExceeded
-		{kind: 1, inner: &c17Shape{kind: 2}}, // plain wrapping a net.Error
+		{kind: 1, inner: &c17Shape{kind: 2}},          // plain wrapping a net.Error
+		{kind: 1, code: 1},                            // the bare context.Canceled
+		{kind: 1, inner: &c17Shape{kind: 1, code: 1}}, // fmt.Errorf("%w", context.Canceled)
 	}
 	var shapes []*c17Shape
 	shapes = append(shapes, &c17Shape{kind: 0}, &c17Shape{kind: 1})
+	// bare sentinel values and their fmt.Errorf("%w") wrappers (one and two levels): context.Canceled,
+	// io.EOF, ErrNoPeers; context.DeadlineExceeded is net flavour 3 (bare) / plain wrapping it (below)
+	for f := 1; f < 4; f++ {
+		shapes = append(shapes, &c17Shape{kind: 1, code: f})
+		shapes = append(shapes, &c17Shape{kind: 1, inner: &c17Shape{kind: 1, code: f}})
+		shapes = append(shapes, &c17Shape{kind: 1, inner: &c17Shape{kind: 1, inner: &c17Shape{kind: 1, code: f}}})
+	}
+	shapes = append(shapes, &c17Shape{kind: 1, inner: &c17Shape{kind: 1, inner: &c17Shape{kind: 2, code: 3}}})
 	for f := 0; f < 4; f++ {
 		shapes = append(shapes, &c17Shape{kind: 2, code: f})
 		shapes = append(shapes, &c17Shape{kind: 1, inner: &c17Shape{kind: 2, code: f}}) // plain wrapping net.Error
